@@ -298,5 +298,7 @@ def run_shard(shard, ctx):
 
 
 def finish(r, tier, seed):
-    return {'functions': {k: v for k, v in r.counters.items() if k.startswith('fn:')},
+    from ..refcheck import flag_consistency_verdict
+    extra = flag_consistency_verdict(r, ID)
+    return {**extra, 'functions': {k: v for k, v in r.counters.items() if k.startswith('fn:')},
             'silent_clauses_used': {k: v for k, v in r.counters.items() if k.startswith('silent_clause:')}}
